@@ -12,11 +12,19 @@ META = dict(
           "header arithmetic and EOFError at the end, (b) path dumps parsed independently and loaded with every skip "
           "option and re-encoded with 64-bit offsets, (c) copy/pickle/dict/TreeSequence interchange, (d) single- and "
           "two-class perturbation pairs x subsets of the six ignore_* flags for equals/assert_equals at collection, "
-          "table and TreeSequence level. A case is distinct by the canonical bit-exact row content of its objects and "
-          "non-trivial when some table has a row."),
+          "table and TreeSequence level (incl. -0.0 vs 0.0 and NaN payloads), (e) chains of 3-6 transports applied to "
+          "ONE travelling object with a never-serialised twin, (f) forced structurally extreme objects (> 65535 rows, "
+          "ragged entries/columns > 64 KiB, MiB reference sequences, > 64 KiB texts, 2^16-child indexed stars) also fed "
+          "by `cat` through pipes/socketpairs. Files and streams are handed over in every argument form (str, bytes, "
+          "pathlib, os.PathLike, keyword, buffered/raw file object, integer descriptor, socket object), dicts also "
+          "through _tskit.LightweightTableCollection, with optional keys absent or None, and objects in the middle of "
+          "a seekable multi-object file are loaded from a positioned handle with and without skip options. A case is "
+          "distinct by the canonical bit-exact row content of its objects and non-trivial when some table has a row."),
     REQUIRED=["same:stream-load", "stream-offset", "eof", "same:path-load", "file-structure", "skip-load",
               "same:copy", "same:pickle", "same:fromdict", "same:dump_tables", "equals", "assert_equals",
-              "table-equals", "fromdict-optional-key"],
+              "table-equals", "fromdict-optional-key", "load-at-offset", "same:chain", "chain-equals",
+              "same:lwt-roundtrip", "table-copy", "table-pickle", "ts-surface", "file-optional-key",
+              "same:large-path-load", "cat-stream-load"],
     ASSUMPTIONS=ASSUME_COMMON + [
         "offset columns needing 64 bits (> 4 GiB of ragged data) are exercised only through a re-encoded file and "
         "asdict(force_offset_64=True), not through genuinely huge columns",
